@@ -1,9 +1,9 @@
 SPECIFICATION MCSpec
 CONSTANTS TxGas = 3
           Stipend = 2
-          TxCap = 5
+          TxCap = 6
           ErrShift = 0
-          Max = 6
+          Max = 7
           Holes = TRUE
 INVARIANTS Sufficient Minimal WithinCap FailsCleanly ProbesWithinCap NoRepeat HiSucceeds Progress ProbeBound
 PROPERTIES SearchRefines
